@@ -111,16 +111,19 @@ func init() {
 				panic(first)
 			}
 			for _, r := range res {
-				cases, results := c.replay("builtins", r.cases, replayOpts{chunk: 8})
-				c.judge("builtins", cases, results, func(cs, res map[string]J) string {
-					for _, a := range cs["pat"].([]J) {
-						if a.([]J)[0] == "v" {
-							in, _ := res["input"].(string)
-							return in
+				// every call twice: the instantiated arguments written in the goal, and reached through variables bound by earlier goals
+				for _, o := range []map[string]string{nil, {"indirect": "1"}} {
+					cases, results := c.replay("builtins", r.cases, replayOpts{chunk: 8, opts: o})
+					c.judge("builtins", cases, results, func(cs, res map[string]J) string {
+						for _, a := range cs["pat"].([]J) {
+							if a.([]J)[0] == "v" {
+								in, _ := res["input"].(string)
+								return in
+							}
 						}
-					}
-					return ""
-				})
+						return ""
+					})
+				}
 			}
 			c.exhaustive = true
 		},
